@@ -60,6 +60,10 @@ func scenDET(s *sched.Sim, cfg Config, res *Result) {
 	if gc.Sanitize {
 		of.NodeRoot = false
 	}
+	if s.T.Bool(1, 4) {
+		gc.DefaultFactory = true
+		res.Probe("det.gateway-default-queryer-factory")
+	}
 	env, err := newFedEnv(s, res, w, gc, prop)
 	if err != nil {
 		res.Verdict, res.Anomaly = "anomaly", "gateway start-up failed on a generated world: "+err.Error()
